@@ -204,6 +204,7 @@ PROBES = [
     ("N1c", "proto p\nmessage 0x" + "9" * 4000 + " {}\n"),
     ("N5", "proto p\n" + "".join(f"message N{q} {{\n" for q in range(700)) + "}\n" * 700),
     ("D3", "proto p\nenum E : uint3 {\n}\nmessage M {\n    E e = 1\n}\n"),
+    ("N12", 'proto p\nimport "x\0y.bitproto"\nmessage M {\n    uint3 a = 1\n}\n'),
 ]
 
 
@@ -304,6 +305,7 @@ def run_fuzz(job: Any, stats: Stats) -> None:
 PARTS = [
     HypPart("mutate", lambda tier: mutate_strategy(), run_text_case, {"quick": 2400, "thorough": 80000}),
     HypPart("soup", lambda tier: textmut.token_soup(), run_text_case, {"quick": 1200, "thorough": 40000}),
+    HypPart("arith", lambda tier: textmut.arith_texts(), run_text_case, {"quick": 800, "thorough": 16000}),
     FuncPart("probes", probe_jobs, run_probe),
     FuncPart("fuzz", fuzz_jobs, run_fuzz),
 ]
